@@ -30,6 +30,7 @@ func ruleDistributor(w *World, r *Run) {
 		return
 	}
 	e := w.engine(5, 1)
+	e.hof[cGroupGo] = 0 // per-log attempts run as goroutines of an error group are run in place
 	sums := e.Explore(fnD)
 	r.Analysed(fnDistOnce+" (one log)", len(sums))
 	for _, s := range sums {
@@ -192,6 +193,7 @@ func ruleDistributeOnce(w *World, r *Run) {
 		return
 	}
 	e := w.engine(5, 2)
+	e.hof[cGroupGo] = 0
 	sums := e.Explore(fn)
 	r.Analysed(fnDistOnce+" (two logs)", len(sums))
 	d := recvParam(fn)
